@@ -195,6 +195,9 @@ theorem step_refines (m : St) (i : In) (hi : Inv m) :
     rw [hu.1] at ha
     simp only [AddrMap.step, AddrSpec.step, ha.1, ha.2.1, hu.2.1, true_and]
     exact ha.2.2
+  | raw l =>
+    have hu := update_refines m l hi
+    simpa [AddrMap.step, AddrSpec.step] using hu
 
 def run : List In → St → List (List Out)
   | [], _ => []
@@ -242,12 +245,20 @@ theorem C20_lookup_name (h : List In) (n : Nat) :
   simp only [AddrMap.find, AddrSpec.find, abs, findRec, find_map, Option.map_map]
   rfl
 
-/-- after every step nothing expired is left: every mapping in the spec is live -/
-theorem spec_all_live (s : S) (i : In) :
+/-- after every step that gives the clock a turn nothing expired is left: every mapping in the spec is live -/
+theorem spec_all_live (s : S) (i : In) (hi : ∀ l, i ≠ .raw l) :
     ∀ m ∈ (AddrSpec.step s i).1.latest, live (AddrSpec.step s i).1.now m = true := by
   cases i with
   | advance dt => intro m hm; simp only [AddrSpec.step, expire] at hm ⊢; exact (List.mem_filter.mp hm).2
   | line l => intro m hm; simp only [AddrSpec.step, expire] at hm ⊢; exact (List.mem_filter.mp hm).2
+  | raw l => exact absurd rfl (hi l)
+
+/-- a mapping that is already over when it arrives, replaced in the same read by a never-expiring one: the name is announced
+once, never expires, and the stale timer of the first mapping is gone (model = spec, by `C20_refines`; here the concrete run) -/
+example : run [ .raw ⟨1, .addr 1, [.field (.at (-5)), .expires (.at (-5))]⟩, .raw ⟨1, .addr 2, [.field .never]⟩, .advance 0, .advance 100 ] {} =
+    [[.added 1], [], [], []] := by decide
+example : AddrMap.find (final [ .raw ⟨1, .addr 1, [.field (.at (-5))]⟩, .raw ⟨1, .addr 2, [.field .never]⟩, .advance 100 ] {}) (.name 1) = some (1, 2) := by
+  decide
 
 /-- **Replacement moves the expiry, earlier or later, to and from NEVER** (spec): after a line for
 `n`, the entry for `n` carries the new address and the new expiry, whatever was there before. -/
